@@ -369,7 +369,7 @@ func c04Case(c *ctxT, r *gen.R, mk func(int, [][]bool) *secWorld, whitelisting b
 }
 
 func runC04(c *ctxT) {
-	n := c.scale(36, 900)
+	n := c.scale(36, 240)
 	for i := 0; i < n; i++ {
 		r := c.rng.Fork()
 		switch i % 3 {
